@@ -66,11 +66,14 @@ type zvC09Case struct {
 	V6     bool   `json:"ipv6"`
 	Tick   bool   `json:"flush_by_ticker"`
 	AP     bool   `json:"addpath_tx"`
+	// the route was received with an OTC attribute (type 35). bio-rd's codec does not know the attribute, the session layer keeps it as an
+	// unknown optional transitive attribute (partial bit set) and the OnlyToCustomer field stays 0
+	OTCRcvd bool `json:"otc_as_received_attribute_35"`
 }
 
 func (c zvC09Case) String() string {
-	return fmt.Sprintf("aspath=%d lp=%d orig=%d cl=%v otc=%d comm=%x src=%s tgt=%s role=%s adv=%v strict=%v v6=%v tick=%v addpath=%v", c.ASPath, c.LP, c.Orig, c.CL, c.OTC, zvC09Comms[c.Comm],
-		zvC09Sources[c.Src], zvC09Targets[c.Tgt], zvC09RolePairs[c.Role].Name, c.Adv, c.Strict, c.V6, c.Tick, c.AP)
+	return fmt.Sprintf("aspath=%d lp=%d orig=%d cl=%v otc=%d comm=%x src=%s tgt=%s role=%s adv=%v strict=%v v6=%v tick=%v addpath=%v otc-received-as-attribute-35=%v", c.ASPath, c.LP, c.Orig, c.CL, c.OTC, zvC09Comms[c.Comm],
+		zvC09Sources[c.Src], zvC09Targets[c.Tgt], zvC09RolePairs[c.Role].Name, c.Adv, c.Strict, c.V6, c.Tick, c.AP, c.OTCRcvd)
 }
 
 type zvC09Seg struct {
@@ -170,6 +173,9 @@ func (c zvC09Case) path() *route.Path {
 		cc := types.Communities(append([]uint32{}, cs...))
 		p.BGPPath.Communities = &cc
 	}
+	if c.OTCRcvd {
+		p.BGPPath.UnknownAttributes = []types.UnknownPathAttribute{{Optional: true, Transitive: true, Partial: true, TypeCode: 35, Value: []byte{0, 0, 0xfe, 0x63}}}
+	}
 	return p
 }
 
@@ -204,6 +210,9 @@ func (c zvC09Case) otcIn() uint32 {
 	if c.Src == 3 {
 		return 0
 	}
+	if c.OTCRcvd {
+		return zvC09OtherOTC
+	}
 	return []uint32{0, zvLocalAS, zvC09OtherOTC}[c.OTC]
 }
 
@@ -232,7 +241,7 @@ func zvC09Reference(c zvC09Case) zvC09Ref {
 	ref.NoTouch = c.Tgt != 0
 	ref.KeepNH = c.Tgt == 1 && c.Src != 3
 	ref.RR = c.Tgt == 3 && c.Src == 1
-	if rolesOn && downstream {
+	if rolesOn && downstream && !c.OTCRcvd {
 		if c.Adv {
 			ref.OTCAdd = true
 		} else {
@@ -450,6 +459,9 @@ func zvC09Check(r *vh.Run, c zvC09Case) {
 	switch {
 	case ref.Never != "":
 		r.Count("ref:never:"+ref.Never, 1)
+		if c.OTCRcvd {
+			r.Count("ref:never:otc-received-as-attribute-35", 1)
+		}
 		r.Nontrivial(1)
 	case ref.Open:
 		r.Count("ref:eligibility-open", 1)
@@ -508,7 +520,14 @@ func zvC09Check(r *vh.Run, c zvC09Case) {
 			if o.Announce > 0 {
 				where = "wire"
 			}
-			viol("never:"+ref.Never, []string{"where", where}, "route must never be advertised (%s) but Adj-RIB-Out holds %d path(s) and %d UPDATE(s) announce it", ref.Never, o.Stored, o.Announce)
+			extra := []string{"where", where}
+			if c.OTCRcvd {
+				extra = append(extra, "otc_as", "unknown-attribute-35")
+				if _, on := o.WAttrs[35]; !on && o.Announce > 0 {
+					extra = append(extra, "attribute_35_on_wire", "false")
+				}
+			}
+			viol("never:"+ref.Never, extra, "route must never be advertised (%s) but Adj-RIB-Out holds %d path(s) and %d UPDATE(s) announce it", ref.Never, o.Stored, o.Announce)
 		}
 		return
 	}
@@ -628,7 +647,7 @@ func zvC09Check(r *vh.Run, c zvC09Case) {
 
 var zvC09Required = []string{
 	"ref:never:no-advertise", "ref:never:no-export-to-ebgp", "ref:never:back-to-source", "ref:never:ibgp-to-nonclient-ibgp", "ref:never:otc-to-provider-peer-rs",
-	"ref:must-export", "ref:eligibility-open", "demand:prepend+nexthop-self", "demand:rs-client-untouched", "demand:rr-attributes", "demand:otc-present", "demand:otc-added",
+	"ref:never:otc-received-as-attribute-35", "ref:must-export", "ref:eligibility-open", "demand:prepend+nexthop-self", "demand:rs-client-untouched", "demand:rr-attributes", "demand:otc-present", "demand:otc-added",
 	"demand:local-pref-on-wire", "demand:no-local-pref-on-wire",
 }
 
@@ -642,6 +661,30 @@ func zvC09RoleStates() [][3]int { // pair index, advertised, strict
 
 func zvC09Enumerate(thorough bool, visit func(idx int, c zvC09Case) bool) {
 	idx := 0
+	orig, stopped := visit, false
+	visit = func(i int, c zvC09Case) bool {
+		if !stopped && !orig(i, c) {
+			stopped = true
+		}
+		return !stopped
+	}
+	defer func() {
+		// routes received with an OTC attribute (kept as unknown attribute 35): x family x target x role state x BGP source
+		for _, v6 := range []bool{false, true} {
+			for tgt := range zvC09Targets {
+				for _, rs := range zvC09RoleStates() {
+					for src := 1; src <= 2; src++ {
+						for _, tick := range []bool{false, true} {
+							idx++
+							if !visit(idx, zvC09Case{ASPath: 1, Src: src, Tgt: tgt, Role: rs[0], Adv: rs[1] == 1, Strict: rs[2] == 1, V6: v6, Tick: tick, OTCRcvd: true}) {
+								return
+							}
+						}
+					}
+				}
+			}
+		}
+	}()
 	aps := []bool{false}
 	if thorough {
 		aps = []bool{false, true}
@@ -691,7 +734,7 @@ func TestVerifC09(t *testing.T) {
 	defer r.Finish()
 	r.Rule("full cross product AS_PATH {empty,[65001],AS_SET first} x LOCAL_PREF {0,200} x ORIGINATOR_ID {0,7} x CLUSTER_LIST {absent,[9]} x OTC {absent, local AS, other AS} x communities {none, NO_EXPORT, NO_ADVERTISE, ordinary, " +
 		"ordinary+NO_EXPORT, ordinary+NO_ADVERTISE, NO_EXPORT+NO_ADVERTISE} x source {this peer, other iBGP peer, other eBGP peer, static (no BGP attributes)} x target {eBGP, eBGP RS client, iBGP, iBGP RR client} x role state {off, 5 admissible " +
-		"(local,remote) pairs x {not advertised by the peer, advertised, advertised+strict}} x {IPv4, IPv6 multiprotocol} x flush {ticker, End-of-RIB: alternating; thorough: both, x add-path TX {off,on}}; each case: fresh world, AdjRIBOut.AddPath, real UpdateSender, reference parser; " +
+		"(local,remote) pairs x {not advertised by the peer, advertised, advertised+strict}} x {IPv4, IPv6 multiprotocol} x flush {ticker, End-of-RIB: alternating; thorough: both, x add-path TX {off,on}}; plus routes received with an OTC attribute (kept by the session layer as unknown attribute 35) x family x target x role state x {iBGP, eBGP source}; each case: fresh world, AdjRIBOut.AddPath, real UpdateSender, reference parser; " +
 		"non-trivial = cases in which a never-clause applies or a rewrite (prepend/next-hop-self, RR attributes, OTC) is demanded")
 	r.Require(zvC09Required...)
 	if r.IsReplay() {
